@@ -71,8 +71,14 @@ def udp_case(ctx, c, idx):
 def http_case(ctx, c, idx):
     kind, fam, n = c["kind"], c["fam"], c["n"]
     port = free_port(socket.SOCK_STREAM)
-    cfg = http_config(port, 1, 1, True, max_scrape=max(n, 100) if kind == "scrape" else 1000,
+    # overfull scrape probe: the limit under test is n and the request names more torrents than that (as many
+    # as the request buffer takes) - the reply must be bounded by the limit, and so still fit
+    nreq = min(n + 40, 65) if (kind == "scrape" and c.get("overfull")) else n
+    cfg = http_config(port, 1, 1, True,
+                      max_scrape=(n if c.get("overfull") else max(n, 100)) if kind == "scrape" else 1000,
                       max_peers=n if kind == "announce" else 1000)
+    if c.get("interval"):
+        cfg["protocol"]["peer_announce_interval"] = c["interval"]
     t = Tracker(ctx, "http", cfg, "c18_%d" % idx)
     ip = "127.0.0.2" if fam == 4 else "::1"
     srv = ("127.0.0.1", port) if fam == 4 else ("::1", port)
@@ -83,24 +89,24 @@ def http_case(ctx, c, idx):
         if kind == "announce":
             for p in range(n + (40 if c.get("overfull") else 0)):
                 conn.send_split(request_bytes(announce_path(1, 1024 + p, numwant=1)), [])
-                out = conn.read_reply(timeout=3.0)
+                out = conn.read_reply(timeout=6.0 * load_factor())
                 if out.get("outcome") != "reply":
                     raise ToolError("could not build the swarm over HTTP: %s" % out)
             data = request_bytes(announce_path(1, 60000, numwant=1000000 if c.get("overfull") else n))
             reqlen = 300      # nominal (not at a boundary)
         else:
-            path = "/scrape?" + "&".join("info_hash=" + ascii_hash(i).decode() for i in range(n))
+            path = "/scrape?" + "&".join("info_hash=" + ascii_hash(i).decode() for i in range(nreq))
             data = ("GET %s HTTP/1.1\r\n\r\n" % path).encode()
             reqlen = len(data)
         conn.send_split(data, [])
-        out = conn.read_reply(timeout=2.0)
+        out = conn.read_reply(timeout=2.0 * load_factor())
         if out.get("outcome") == "reply" and out.get("framed"):
             obs, olen = "reply", 45 + out["content_length"]
         else:
             obs, olen = ("closed" if out.get("outcome") == "closed" else "none"), 0
         return {"ev": "case", "tracker": "http", "backend": "glommio", "kind": kind, "fam": fam, "n": n,
                 "reqlen": reqlen, "observed": obs, "observed_len": olen, "alive": t.alive(),
-                "overfull": bool(c.get("overfull"))}
+                "overfull": bool(c.get("overfull")), "interval": c.get("interval", 0)}
     finally:
         if conn:
             conn.close()
@@ -148,11 +154,17 @@ def run(ctx):
     main = dict(results)
     safe = {}
     for i, r in main.items():
-        if r["kind"] == "announce" and r["observed"] == "reply":
-            key = (r["tracker"], r["backend"], r["fam"])
+        if r["observed"] == "reply" and (r["kind"] == "announce" or r["tracker"] == "http"):
+            key = (r["tracker"], r["backend"], r["kind"], r["fam"])
             if key not in safe or r["n"] > safe[key]["n"]:
                 safe[key] = todo[i]
     extra = [dict(c, overfull=True) for c in safe.values()]
+    # exact fits (from Buffers_MC): the HTTP announce reply that fills the response buffer to the last byte
+    exact_cases = [json.loads(tla_unquote(x)) for x in printed_tuples(res["out"], "EXACT")]
+    if len(exact_cases) < 2:
+        raise ToolError("Buffers_MC produced no exact-fit cases")
+    extra += [{"tracker": "http", "backend": "glommio", "kind": "announce", "fam": x["fam"], "n": x["n"],
+               "interval": x["interval"], "exact": True, "expect_len": x["replylen"]} for x in exact_cases]
     base = len(todo)
     todo = todo + extra
     ths = [threading.Thread(target=work, args=(base + j, c)) for j, c in enumerate(extra)]
@@ -163,6 +175,14 @@ def run(ctx):
     if errors:
         raise ToolError("; ".join(errors)[:500])
     overfull = {i: results.pop(i) for i in list(results) if i >= base}
+    exact = {i: r for i, r in overfull.items() if todo[i].get("exact")}
+    for i, r in exact.items():
+        if r["observed"] == "reply" and r["observed_len"] != todo[i]["expect_len"]:
+            # the probe did not hit the buffer size (the size function has drifted): no verdict from it
+            log("MODEL-DRIFT (no verdict): exact-fit probe %s produced %d bytes, Buffers.tla says %d"
+                % (todo[i], r["observed_len"], todo[i]["expect_len"]))
+            ctx.model_drift = {"note": "exact-fit probe size differs from Buffers.tla", "case": todo[i],
+                               "observed_len": r["observed_len"]}
     tp = ctx.path("buffers.ndjson")
     with open(tp, "w") as f:
         for i in sorted(results):
@@ -197,7 +217,10 @@ def run(ctx):
                          {"cases": rs}, sig)
     ctx.coverage.update({
         "grid_points_from_spec": len(cases), "grid_points_executed": len(results),
-        "overfull_probes": [[r["tracker"], r["backend"], r["fam"], r["n"], r["observed"]] for r in overfull.values()],
+        "overfull_probes": [[r["tracker"], r["backend"], r["kind"], r["fam"], r["n"], r["observed"]]
+                            for r in overfull.values() if not r.get("interval")],
+        "exact_fit_probes (reply fills the buffer to the last byte)":
+            [[r["tracker"], r["fam"], r["n"], r["interval"], r["observed"], r["observed_len"]] for r in exact.values()],
         "delivered": sum(1 for r in results.values() if r["observed"] == "reply"),
         "not_delivered": sum(1 for r in results.values() if r["observed"] != "reply"),
         "spec_fits": fits[0] if fits else "?",
